@@ -134,7 +134,7 @@ def work(task):
             for sp in specs:
                 cases.append({"ty": ty, "u": u["idx"], "x": x, "cls": cls, "spec": sp,
                               "reqs": [dict({"op": "fmt", "ty": ty, "x": x, "u": u["idx"]}, **sp)]})
-    ctx = {"backend": b, "ty": ty, "entry": ent, "module": "c15", "parse": []}
+    ctx = {"backend": b, "ty": ty, "entry": ent, "module": "c15", "parse": [], "decl": task.get("decl")}
     fw.run_cases(part, task["bin"], cases, judge, ctx)
     # second pass: parse the displayed text back with the library's own parsers
     cases2 = []
@@ -200,8 +200,19 @@ def judge(part, case, resps, ctx):
         if not ok_a:
             viol("parse_back", "displayed amount text %r parses (AmountT::from_str) to %s, stored amount is %s" % (("-" if case["neg"] else "") + case["amt_text"], r["a"], x))
         first = next((un["dbg"] for un in ent["units"] if un["symbol"] == uu["symbol"]), None)
-        if r["u"] != first:
-            viol("symbol_resolve", "displayed symbol resolves to %s, stored unit %s" % (r["u"], first))
+        # where the declared symbols are unique (the whole catalogue) the symbol must resolve to the stored unit itself
+        decl = ctx.get("decl")
+        if decl is None:
+            try:
+                import declared
+                decl = declared.declared_units(ty)
+            except Exception:
+                decl = None
+        want_u = first
+        if decl is None or [e["symbol"] for e in decl[1]].count(uu["symbol"]) <= 1:
+            want_u = uu["dbg"]
+        if r["u"] != want_u:
+            viol("symbol_resolve", "displayed symbol %r resolves to %s, stored unit %s" % (uu["symbol"], r["u"], uu["dbg"]))
         part.count("parsed_back")
         return
     for k in ("s", "us", "xs", "nsym"):
@@ -279,7 +290,7 @@ def judge(part, case, resps, ctx):
                 reasons.append("amount text %r is not the correctly rounded |amount| %s" % (amt_text, float(abs(x))))
                 continue
         accepted = True
-        if prec is None and "parse" in ctx and len(ctx["parse"]) < 4000:
+        if prec is None and "parse" in ctx and len(ctx["parse"]) < 6000:
             ctx["parse"].append((case, amt_text, sym, is_neg or (neg_bit and signs == "-")))
         break
     if not accepted:
